@@ -116,14 +116,18 @@ func (s *Swarm[T]) Tell(ctx context.Context, dst Addr[T], data p2p.IOVec) error 
 		if err != nil {
 			return err
 		}
-		defer stream.Close()
 		if deadline, yes := ctx.Deadline(); yes {
 			if err := stream.SetWriteDeadline(deadline); err != nil {
+				stream.CancelWrite(1)
 				return err
 			}
 		}
-		_, err = data.WriteTo(stream)
-		return err
+		if _, err = data.WriteTo(stream); err != nil {
+			// Closing would end the stream cleanly and the receiver would take the part written so far for the whole message.
+			stream.CancelWrite(1)
+			return err
+		}
+		return stream.Close()
 	})
 	if isSessionReplaced(err) {
 		return s.Tell(ctx, dst, data)
